@@ -193,6 +193,7 @@ fn case_typed<S: Spec>(sub: &str, id: u64, r: &mut Report) {
             for f in 0..=ncalls + 1 {
                 let mut fs = SourceRng::new(data.clone());
                 fs.fail_from = Some(f);
+                fs.scribble = p.chance(1, 2);
                 fs.token = p.u64();
                 let token = fs.token;
                 let mut fsrc = FallibleSource(fs);
